@@ -289,6 +289,11 @@ def cases(tier, seed, spec):
     for r in range(120 if tier == 'quick' else 2000):
         yield {'kind': 'script', 'n': r}
     yield from (dict(c, kind='ctx') for c in gen.ctx_stream(tier, seed, with_wide=False, scale=.5 if tier == 'quick' else .2))
+    # table texts of more than a million characters (buffers, chunked encoders): 3 000 x 100 and 120 x 2 600
+    import random as _r
+    rng = _r.Random(f'{seed}/c14bigtext')
+    for n, m in ([(3000, 100)] if tier == 'quick' else [(3000, 100), (120, 2600), (5000, 70)]):
+        yield dict(gen.case('BIGTEXT', [rng.getrandbits(m) for _ in range(n)], m, 'plain'), kind='ctx')
 
 
 def derivations(D, x, y, rng):
@@ -476,6 +481,16 @@ def run_script(concepts, case, spec):
     COL.count('scripted_cross_definition_histories')
 
 
+_SIBLINGS = []
+
+
+def sibling_subclasses(C):
+    if not _SIBLINGS or C not in _SIBLINGS[0].__mro__:
+        _SIBLINGS[:] = [type('UserContextA', (C,), {'__doc__': 'a user subclass'}),
+                        type('UserContextB', (C,), {'__doc__': 'another, unrelated user subclass'})]
+    return _SIBLINGS
+
+
 def run_ctx(concepts, case, spec):
     C, D = concepts.Context, concepts.Definition
     rng = common.rng_for(case, spec)
@@ -494,6 +509,22 @@ def run_ctx(concepts, case, spec):
         d2 = call(c2.definition)
         if d2 is not RAISED and not (d2 == d):
             COL.violation('driver', 'roundtrip:Context(*definition).definition()-differs', real_triple(d), real_triple(d2))
+    # instances of two unrelated user subclasses of Context are contexts: equal triples, equal contexts
+    if len(case['objects']) * len(case['properties']) <= 100:
+        S1, S2 = sibling_subclasses(C)
+        tr = (list(case['objects']), list(case['properties']), gen.bools_of(case))
+        flipped = [tuple(not v if (i, j) == (0, 0) else v for j, v in enumerate(r)) for i, r in enumerate(tr[2])]
+        a, b, b2 = call(S1, *tr), call(S2, *tr), call(S2, tr[0], tr[1], flipped)
+        if RAISED not in (a, b, b2):
+            COL.count('sibling_subclass_comparisons')
+            for desc, thunk, want in (('a == b', lambda: a == b, True), ('b == a', lambda: b == a, True),
+                                      ('a != b', lambda: a != b, False), ('a == b2', lambda: a == b2, False),
+                                      ('b2 != a', lambda: b2 != a, True), ('ctx == a', lambda: ctx == a, True),
+                                      ('a != ctx', lambda: a != ctx, False)):
+                got = call(thunk)
+                if got is not RAISED and bool(got) != want:
+                    COL.violation('driver', 'eq:instances-of-user-subclasses-with-' + ('equal' if want == (desc[2] == '=') else 'different')
+                                  + '-triples-compare-wrongly', {desc: want}, {desc: got})
     # a context that differs in one cell / one label / row order
     rows = list(case['rows'])
     rows[rng.randrange(len(rows))] ^= 1 << rng.randrange(len(case['properties']))
@@ -545,7 +576,7 @@ def run_ctx(concepts, case, spec):
         call(lambda: ctx == common.build_or_skip(concepts, case))
         COL.count('returned_bools_edited_then_asked_again')
     # crc32 with other encodings, after the default one was computed on the same objects
-    for enc in ('latin-1', 'utf-16', 'utf-8'):
+    for enc in ('latin-1', 'utf-16', 'utf-8', 'utf-32', 'utf-8-sig', 'utf-16-le'):
         try:
             ''.join(case['objects'] + case['properties']).encode(enc)
         except UnicodeEncodeError:
